@@ -20,6 +20,7 @@ func init() {
 			ruleR5(c)
 			ruleF6(c)
 			ruleF7(c)
+			ruleF8(c)
 		},
 		explanation: "The fault space and the time bound are not statically reachable.  Decided is the handling structure every fault ends up in: every plugin RPC is made with a context derived by context.WithTimeout from the configured request timeout and its cancel is deferred; the fatal-error classification covers connection closed, server closed, protocol error and deadline exceeded; all relays agree — on an RPC error that is fatal the plugin is closed and the relay returns no reply and no error (the request continues), otherwise it returns exactly that error and no reply; every request method prunes closed plugins on every exit while still holding the adaptation lock, keeping exactly the plugins that are not closed; a relay error or merge error is tested before any use of the reply and returns (nil, err) at once; closing a plugin is idempotent and locked; the global lock-order graph over all locks of the adaptation, stub, net and multiplex packages has no cycle and no re-entrant acquisition.",
 		notDecided: []string{
@@ -268,10 +269,27 @@ func ruleF4(c *Ctx) {
 		if !uses {
 			continue
 		}
+		// the prune is deferred directly, or called inside a deferred closure
 		var df *ssa.Defer
+		var inner ssa.CallInstruction
 		for _, ci := range m.callsTo(f, rm) {
 			if d, ok := ci.(*ssa.Defer); ok {
 				df = d
+			}
+		}
+		if df == nil {
+			for _, b := range f.Blocks {
+				for _, in := range b.Instrs {
+					d, ok := in.(*ssa.Defer)
+					if !ok {
+						continue
+					}
+					if cf := closureFn(d.Call.Value); cf != nil && cf.Parent() == f {
+						for _, ci := range m.callsTo(cf, rm) {
+							df, inner = d, ci
+						}
+					}
+				}
 			}
 		}
 		what := f.Name() + " prunes closed plugins on every exit, under the lock"
@@ -286,8 +304,13 @@ func ruleF4(c *Ctx) {
 				bad = fmt.Sprintf("the return at %s is not covered by the deferred prune", c.pos(r.Pos()))
 			}
 		}
-		rs, ok := la.atReplay[df]
-		if !ok || !rs[lockID{"Adaptation.Mutex", 'W'}] {
+		held := false
+		if inner != nil {
+			held = la.holds(inner, "Adaptation.Mutex", 'W')
+		} else if rs, ok := la.atReplay[df]; ok {
+			held = rs[lockID{"Adaptation.Mutex", 'W'}]
+		}
+		if !held {
 			bad = "when the deferred prune runs the adaptation lock has already been released (defer order): the list is modified concurrently with other requests"
 		}
 		c.ok("F4", f.Name(), df.Pos(), bad == "", what, bad)
@@ -452,4 +475,63 @@ func ruleF7(c *Ctx) {
 	if len(la.edges) == 0 {
 		c.add("F7", "graph", token.NoPos, Discharged, "lock-order graph has no nested acquisitions at all", "")
 	}
+}
+
+// ruleF8: errors crossing the multiplexer keep their cause chain.
+func ruleF8(c *Ctx) {
+	m := c.M
+	c.rule("F8", "cause chain preserved: every fmt.Errorf in the multiplexer that embeds an error value wraps it with %w, so that ttRPC and isFatalError (errors.Is) still recognise a closed connection or a deadline behind the mux's own message", 4)
+	n := 0
+	for _, f := range m.funcsInPkg(pkgMux) {
+		for _, ci := range calls(f) {
+			g := m.callee(ci.Common())
+			if g == nil || g.String() != "fmt.Errorf" {
+				continue
+			}
+			format, ok := constString(ci.Common().Args[0])
+			if !ok || len(ci.Common().Args) < 2 {
+				continue
+			}
+			elems := (&mergeFn{m: m}).appendedElems(ci.Common().Args[1])
+			// map each verb to its operand
+			verbs := formatVerbs(format)
+			for i, e := range elems {
+				v := e
+				if mi, ok := v.(*ssa.MakeInterface); ok {
+					v = mi.X
+				}
+				if ci2, ok := v.(*ssa.ChangeInterface); ok {
+					v = ci2.X
+				}
+				if !isErrorType(v.Type()) {
+					continue
+				}
+				n++
+				verb := ""
+				if i < len(verbs) {
+					verb = verbs[i]
+				}
+				c.ok("F8", fmt.Sprintf("%s/errorf#%d", funcKey(f), n), ci.Pos(), verb == "w", fmt.Sprintf("the error embedded by %s is wrapped with %%w", funcKey(f)),
+					fmt.Sprintf("the error is formatted with %%%s: the transport's own error (closed connection, broken pipe, deadline) is no longer in the chain, so the failure is treated as a handler error and vetoes the request instead of dropping the plugin", verb))
+			}
+		}
+	}
+}
+
+// formatVerbs lists the verbs of a format string in operand order.
+func formatVerbs(f string) []string {
+	var out []string
+	for i := 0; i < len(f); i++ {
+		if f[i] != '%' {
+			continue
+		}
+		i++
+		for i < len(f) && strings.ContainsRune("+-# 0123456789.*[]", rune(f[i])) {
+			i++
+		}
+		if i < len(f) && f[i] != '%' {
+			out = append(out, string(f[i]))
+		}
+	}
+	return out
 }
